@@ -487,9 +487,19 @@ func fieldName(t types.Type, idx int) string {
 		t = p.Elem()
 	}
 	if st, ok := t.Underlying().(*types.Struct); ok && idx < st.NumFields() {
-		return st.Field(idx).Name()
+		return fieldAliasName(st.Field(idx))
 	}
 	return fmt.Sprintf("f%d", idx)
+}
+
+// fieldAlias: a renamed struct field goes by its recorded (reference-tree) name (see rename.go).
+var fieldAlias = map[*types.Var]string{}
+
+func fieldAliasName(v *types.Var) string {
+	if a, ok := fieldAlias[v]; ok {
+		return a
+	}
+	return v.Name()
 }
 
 // addrExpr renders the location an address value denotes ("c.fillRule", "dsq[curr]", "*k").
@@ -965,16 +975,16 @@ func (c *Ctx) helperPats() []helperPat {
 				continue
 			}
 			body := outs[0].ret[0].expr
-			if strings.HasPrefix(body, n+"(") {
+			if strings.HasPrefix(body, n+"(") || strings.HasPrefix(body, c.fname(f)+"(") {
 				// second pass: the body was rewritten into a call of itself — keep the first-pass pattern
 				for _, old := range c.hpats {
-					if old.name == n {
+					if old.name == n || old.name == c.fname(f) {
 						out = append(out, old)
 					}
 				}
 				continue
 			}
-			hp := helperPat{name: n, n: len(f.Params)}
+			hp := helperPat{name: c.fname(f), n: len(f.Params)}
 			idx := map[string]int{}
 			for i, p := range f.Params {
 				idx[p.Name()] = i
